@@ -19,6 +19,7 @@ Line protocol of the C07 model (see harness/src/props/c07.rs):
 * `vint32_enc <n>` (serialize_vint_u32) → hex; `vint32_dec <hex>` (read_u32_vint_no_advance) → `<n> <len>` | `err`
 * `recycle <opt> <df1> <hex1> <A<k>|D|S<target>> <df2> <hex2>` → `<docs>|<tfs>` drained from a block cursor opened on list 1, moved, then reset to list 2
 * `lazyseeks <opt> <doc_freq> <hex> <targets>` → the doc each `BlockSegmentPostings::seek` of the program lands on (lazy cursor model)
+* `lazyseeks_tf <opt> <doc_freq> <hex> <targets>` → the term frequency the frequency buffer shows after each seek (0 when the seek ran off the end)
 * `tis_write <df:ps:pe:qs:qe;…>` → hex of the TermInfoStore bytes; `tis_get <hex> <ord>` → `df:ps:pe:qs:qe` | `err`
 * `numbits <n>`; `fn_to_id <n>`; `id_to_fn <i>`
 * `enc <opt> <docs> <tfs>` → hex of the term's postings bytes
@@ -219,6 +220,15 @@ def handle : List String → String
     match parseOpt o, df.toNat?, natsOfHex h, natList ts with
     | some o, some df, some b, some ts =>
       showNatList (BlockPostings.seekAll cfg (BlockPostings.open cfg o o df b) ts)
+    | _, _, _, _ => "bad-op"
+  | ["lazyseeks_tf", o, df, h, ts] =>
+    match parseOpt o, df.toNat?, natsOfHex h, natList ts with
+    | some o, some df, some b, some ts =>
+      let step := fun (acc : BlockPostings × List Nat) (t : Nat) =>
+        let r := acc.1.seek cfg t
+        let d := r.1.docBuf.getD r.2 cfg.T
+        (r.1, acc.2 ++ [if d = cfg.T then 0 else r.1.freqs.getD r.2 0])
+      showNatList (ts.foldl step (BlockPostings.open cfg o o df b, [])).2
     | _, _, _, _ => "bad-op"
   | ["tis_write", infos] =>
     match (if infos == "-" then some [] else (infos.splitOn ";").mapM parseTermInfo) with
